@@ -108,7 +108,30 @@ def _walk_nodes(node: Node, ts_start: int, ts_end: int) -> Generator[Node, None,
         if current.end_point[0] < ts_start or current.start_point[0] > ts_end:
             continue
         yield current
-        stack.extend(reversed(current.children))
+        stack.extend(reversed(_children_overlapping(current, ts_start, ts_end)))
+
+
+def _children_overlapping(node: Node, ts_start: int, ts_end: int) -> list[Node]:
+    """Children of node that overlap lines ts_start..ts_end.
+
+    Children are ordered by position, so the first candidate is found by binary search;
+    a file with thousands of top-level items is not rescanned for every window.
+    """
+    count = node.child_count
+    low, high = 0, count
+    while low < high:
+        mid = (low + high) // 2
+        if node.child(mid).end_point[0] < ts_start:
+            low = mid + 1
+        else:
+            high = mid
+    found = []
+    for index in range(low, count):
+        child = node.child(index)
+        if child.start_point[0] > ts_end:
+            break
+        found.append(child)
+    return found
 
 
 def _node_overlaps_and_matches(node: Node, ts_start: int, ts_end: int) -> bool:
